@@ -466,7 +466,7 @@ func execPhase(base *world.World, tag string, phase int, steps []seqStep, storeK
 			}
 			snap := takeSnapshot(w, st.p)
 			st.db.Close()
-			if s.Cls != "restart" { // ("restart": the same file as it is; otherwise the file as the release would have written it)
+			if s.Cls != "restart" && s.Cls != "retire" { // ("restart", "retire": the same file as it is; otherwise the file as the release would have written it)
 				os.Remove(st.path)
 				os.Remove(st.path + "-journal")
 				raw, err := sql.Open("sqlite3", st.path)
@@ -491,7 +491,14 @@ func execPhase(base *world.World, tag string, phase int, steps []seqStep, storeK
 			path := st.path
 			st.db, st.p = db, psql.NewPersistence(db)
 			st.close = func() { db.Close(); os.Remove(path); os.Remove(path + "-journal") }
-			if wit, err = newWitness(w, st.p); err != nil {
+			if s.Cls == "retire" {
+				// the operator has dropped s.Log from the configuration (a retired log): the restarted witness no longer takes updates for it,
+				// but what it holds for it is still what it holds
+				wit, err = newWitnessWithout(w, st.p, s.Log)
+			} else {
+				wit, err = newWitness(w, st.p)
+			}
+			if err != nil {
 				return nil, err
 			}
 			if useHTTP {
